@@ -2,13 +2,16 @@
 //!
 //! Only compiled with `--cfg hotstuff_verif` (verification builds). Listeners are registered in a
 //! process-wide table keyed by port; a connection is a `tokio::io::duplex` pair. Dropping one
-//! half gives the other side EOF on read and `BrokenPipe` on write; connecting to a port nobody
-//! listens on is refused. All sender/receiver logic of this crate runs unchanged on top of it.
+//! half gives the other side EOF on read and `BrokenPipe` on write; `abort` closes a half the way a
+//! peer that dies with unread data does (RST): the other side reads `ConnectionReset` instead of
+//! EOF. Connecting to a port nobody listens on is refused. All sender/receiver logic of this crate
+//! runs unchanged on top of it.
 use std::collections::HashMap;
 use std::io;
 use std::net::SocketAddr;
 use std::pin::Pin;
-use std::sync::{Mutex, OnceLock};
+use std::sync::atomic::{AtomicBool, Ordering};
+use std::sync::{Arc, Mutex, OnceLock};
 use std::task::{Context, Poll};
 use tokio::io::{AsyncRead, AsyncWrite, DuplexStream, ReadBuf};
 use tokio::sync::mpsc::{unbounded_channel, UnboundedReceiver, UnboundedSender};
@@ -25,7 +28,7 @@ pub fn reset() {
     registry().lock().unwrap().clear();
 }
 
-pub struct TcpStream(DuplexStream);
+pub struct TcpStream(DuplexStream, Arc<AtomicBool>);
 
 impl TcpStream {
     pub async fn connect(address: SocketAddr) -> io::Result<TcpStream> {
@@ -35,11 +38,17 @@ impl TcpStream {
             Some(tx) if !tx.is_closed() => {
                 let (a, b) = tokio::io::duplex(1 << 22);
                 let peer = "127.0.0.1:1".parse().unwrap();
-                tx.send((TcpStream(b), peer)).map_err(|_| refused())?;
-                Ok(TcpStream(a))
+                let reset = Arc::new(AtomicBool::new(false));
+                tx.send((TcpStream(b, reset.clone()), peer)).map_err(|_| refused())?;
+                Ok(TcpStream(a, reset))
             }
             _ => Err(refused()),
         }
+    }
+
+    /// Close this end abruptly: the other end's reads fail with `ConnectionReset` (not EOF).
+    pub fn abort(self) {
+        self.1.store(true, Ordering::SeqCst);
     }
 }
 
@@ -49,7 +58,17 @@ impl AsyncRead for TcpStream {
         cx: &mut Context<'_>,
         buf: &mut ReadBuf<'_>,
     ) -> Poll<io::Result<()>> {
-        Pin::new(&mut self.0).poll_read(cx, buf)
+        if self.1.load(Ordering::SeqCst) {
+            return Poll::Ready(Err(io::Error::new(io::ErrorKind::ConnectionReset, "connection reset by peer")));
+        }
+        let before = buf.filled().len();
+        match Pin::new(&mut self.0).poll_read(cx, buf) {
+            // the wake-up of an aborted connection arrives as EOF of the duplex
+            Poll::Ready(Ok(())) if buf.filled().len() == before && self.1.load(Ordering::SeqCst) => {
+                Poll::Ready(Err(io::Error::new(io::ErrorKind::ConnectionReset, "connection reset by peer")))
+            }
+            other => other,
+        }
     }
 }
 
